@@ -256,7 +256,7 @@ Qed.
 (* what an observer of the set of groups and of the stopping flag expects *)
 Definition sup_expected (before after : sup) (o : sop) : list notification :=
   match o with
-  | OAdd n | ORemove n _ =>
+  | OAdd n | ORemove n _ | OAddRaises n | ORemoveRaises n =>
       if text_in n (s_groups after) && negb (text_in n (s_groups before))
       then [(ProcessGroupAddedEvent, AGroup n)]
       else if text_in n (s_groups before) && negb (text_in n (s_groups after))
@@ -291,9 +291,10 @@ Theorem sup_step_truth : forall s o,
   | OPass mood =>
       s_groups s' = s_groups s /\
       s_stopping s' = (s_stopping s || (mood <? supervisor_running))
+  | OAddRaises _ | ORemoveRaises _ => s' = s /\ res <> RTrue
   end.
 Proof.
-  intros s o. destruct o as [n|n unstopped| |mood]; cbn [sup_step].
+  intros s o. destruct o as [n|n unstopped| |mood|n|n]; cbn [sup_step].
   - destruct (text_in n (s_groups s)) eqn:E; cbn [negb].
     + unfold sup_expected. rewrite E. cbn. conj; triv.
     + unfold sup_expected. cbn [s_groups s_stopping]. rewrite text_in_app, E, zlist_eqb_refl. cbn.
@@ -310,6 +311,8 @@ Proof.
   - split; reflexivity.
   - destruct (mood <? supervisor_running) eqn:E; destruct (s_stopping s) eqn:E2; cbn [andb negb];
       unfold sup_expected; cbn; rewrite ?E2; cbn; conj; triv.
+  - destruct (text_in n (s_groups s)) eqn:E; cbn [negb]; unfold sup_expected; rewrite E; cbn; conj; triv; discriminate.
+  - destruct (text_in n (s_groups s)) eqn:E; cbn [negb]; unfold sup_expected; rewrite E; cbn; conj; triv; discriminate.
 Qed.
 
 (* BIJECTION over histories: the notifications of any sequence of group
@@ -338,23 +341,27 @@ Lemma no_stopping_twice : forall l s, s_stopping s = true ->
   filter is_stopping (sup_run s l) = [].
 Proof.
   induction l as [|o r IH]; intros s H; [reflexivity|].
-  cbn [sup_run]. destruct o as [n|n u| |mood]; cbn [sup_step].
+  cbn [sup_run]. destruct o as [n|n u| |mood|n|n]; cbn [sup_step].
   - destruct (negb (text_in n (s_groups s))); rewrite filter_app; cbn; apply IH; assumption.
   - destruct (negb (text_in n (s_groups s))); [|destruct u]; rewrite filter_app; cbn; apply IH; assumption.
   - rewrite filter_app. cbn. apply IH. assumption.
   - rewrite H. rewrite andb_false_r. cbn. apply IH. assumption.
+  - destruct (negb (text_in n (s_groups s))); cbn; apply IH; assumption.
+  - destruct (negb (text_in n (s_groups s))); cbn; apply IH; assumption.
 Qed.
 
 Theorem stopping_once : forall l s, (length (filter is_stopping (sup_run s l)) <= 1)%nat.
 Proof.
   induction l as [|o r IH]; intros s; [simpl; lia|].
-  cbn [sup_run]. destruct o as [n|n u| |mood]; cbn [sup_step].
+  cbn [sup_run]. destruct o as [n|n u| |mood|n|n]; cbn [sup_step].
   - destruct (negb (text_in n (s_groups s))); rewrite filter_app; cbn; apply IH.
   - destruct (negb (text_in n (s_groups s))); [|destruct u]; rewrite filter_app; cbn; apply IH.
   - rewrite filter_app. cbn. apply IH.
   - destruct ((mood <? supervisor_running) && negb (s_stopping s)) eqn:E.
     + rewrite filter_app. cbn. rewrite no_stopping_twice by reflexivity. simpl. lia.
     + cbn. apply IH.
+  - destruct (negb (text_in n (s_groups s))); cbn; apply IH.
+  - destruct (negb (text_in n (s_groups s))); cbn; apply IH.
 Qed.
 
 Example sup_example :
